@@ -14,7 +14,8 @@ from __future__ import annotations
 INT, BOOL, ARR, STR, VAL = 'Int', 'Bool', 'Arr', 'Str', 'Val'
 SORT_SMT = {INT: 'Int', BOOL: 'Bool', ARR: '(Array Int Int)', STR: 'String', VAL: 'Val',
             'Fields': '(Array String Val)', 'Keys': '(Array String Bool)',
-            'Heap': '(Array Int (Array String Val))', 'Dom': '(Array Int (Array String Bool))'}
+            'Heap': '(Array Int (Array String Val))', 'Dom': '(Array Int (Array String Bool))',
+            'VMapHas': '(Array Val Bool)', 'VMapGet': '(Array Val Val)', 'VArr': '(Array Int Val)'}
 
 
 class T:
